@@ -118,10 +118,11 @@ class MultipartDecoder:
             % (LINE_BREAK, re.escape(boundary), LINE_BREAK, LINE_BREAK),
             re.MULTILINE,
         )
-        # The first boundary at the end of the data, followed by any amount
-        # of padding but not yet by its line break.
+        # The first boundary at the end of the data, followed by padding but
+        # not yet by its line break. The padding considered is bounded so
+        # that the data kept for the next search stays bounded as well.
         self._incomplete_preamble_re = re.compile(
-            rb"--%s[^\S\n\r]*\Z" % re.escape(boundary)
+            rb"--%s[^\S\n\r]{0,1024}\Z" % re.escape(boundary)
         )
         self._search_position = 0
         self._parts_decoded = 0
